@@ -103,6 +103,9 @@ impl C05 {
             vec![bases.len() as u64, kmax + 1, jmax + 1, 3, 3, 2, MODES.len() as u64],
         );
         fams.add("query path", vec![qvals.len() as u64, bases.len() as u64, MODES.len() as u64]);
+        // recurring blocks of 1..10 digits whose remainder numerator is as large as it gets
+        // ((b^p - 2)/(b^p - 1) = 0.[zz..zy]): the products (b^p - 1) * numerator pass 2^63 for b >= 12
+        fams.add("short recurring block x largest remainder, every base", vec![35, 10, 3, 2, MODES.len() as u64]);
         C05 { fams, rats, bases, kmax, jmax, qvals, ctx: Lazy::new() }
     }
 
@@ -123,6 +126,24 @@ impl C05 {
                     v = -v;
                 }
                 (1, Some(v), b, MODES[d[6] as usize])
+            }
+            3 => {
+                let b = d[0] as u32 + 2;
+                let p = d[1] as usize + 1;
+                let den = num_traits::pow(BigInt::from(b), p) - BigInt::one();
+                let num = match d[2] {
+                    0 => &den - BigInt::one(),
+                    1 => &den - num_traits::pow(BigInt::from(b), p - 1),
+                    _ => (&den + BigInt::one()) / BigInt::from(2u32),
+                };
+                if den.is_zero() || num.is_zero() {
+                    return (3, None, b, MODES[d[4] as usize]);
+                }
+                let mut v = Rat::new(num, den);
+                if d[3] == 1 {
+                    v = v + Rat::from_integer(BigInt::from(12345));
+                }
+                (3, Some(v), b, MODES[d[4] as usize])
             }
             _ => (2, Some(self.qvals[d[0] as usize].clone()), self.bases[d[1] as usize], MODES[d[2] as usize]),
         }
@@ -198,7 +219,7 @@ impl Space for C05 {
         Meta {
             id: "C05",
             level: "exploration",
-            rule: "rationals (all p/q with |p|,q <= N; magnitudes straddling the 1e-9/1e9 switches; denominators with long/huge periods 97, 3937, 9973, 65537, 1000003; 2^4096+1 and its reciprocal; per base the family (b^k+d1)/(b^j+d2), d in {-1,0,1}, both signs) x bases x 11 digits modes through Numeric::to_string/string_repr, plus the query path `x -> <mode> base B`; every printed numeral is read back by an independent numeral reader (sign, integer digits, radix point, fraction digits, [block, period N]..., e+-k scaling by base^k). Non-trivial = nonzero value; distinct by (value, base, mode)".into(),
+            rule: "rationals (all p/q with |p|,q <= N; magnitudes straddling the 1e-9/1e9 switches; denominators with long/huge periods 97, 3937, 9973, 65537, 1000003; 2^4096+1 and its reciprocal; per base the family (b^k+d1)/(b^j+d2), d in {-1,0,1}, both signs; per base 2..36 the family (b^p-2)/(b^p-1), (b^p-1-b^(p-1))/(b^p-1), (b^p/2)/(b^p-1) for p in 1..10, alone and added to 12345: short recurring blocks with the largest remainders) x bases x 11 digits modes through Numeric::to_string/string_repr, plus the query path `x -> <mode> base B`; every printed numeral is read back by an independent numeral reader (sign, integer digits, radix point, fraction digits, [block, period N]..., e+-k scaling by base^k). Non-trivial = nonzero value; distinct by (value, base, mode)".into(),
             assumptions: vec![
                 "the decimal exponent after `e` scales by base^exponent".into(),
                 "for bases > 14 where `e` is also a digit every consistent split is tried".into(),
@@ -214,7 +235,7 @@ impl Space for C05 {
     fn describe(&self, idx: u64) -> String {
         let (f, x, b, m) = self.case(idx);
         match x {
-            Some(x) => format!("{} {} base {} mode {}", ["to_string", "to_string", "query"][f], engine::util::clip(&x.to_string(), 90), b, mode_name(m)),
+            Some(x) => format!("{} {} base {} mode {}", ["to_string", "to_string", "query", "to_string"][f], engine::util::clip(&x.to_string(), 90), b, mode_name(m)),
             None => "(zero denominator: skipped)".into(),
         }
     }
@@ -252,7 +273,7 @@ impl Space for C05 {
             None => return CaseOut::ok("skipped"),
         };
         let key = hash64(&(x.to_string(), base, mode_name(mode)));
-        if f < 2 {
+        if f != 2 {
             let (outcome, bad) = check_direct(&x, base, mode);
             let mut out = CaseOut::ok(outcome);
             if !x.is_zero() {
